@@ -896,5 +896,17 @@ pub fn run(args: Args) {
         let seen = run.acc.get(key) > 0;
         run.require(seen, &format!("never observed: {key}"));
     }
+    // every refusal must be explainable by the model (over-rejection would hide acceptance bugs)
+    let unexplained: u64 = run
+        .acc
+        .counters
+        .iter()
+        .filter(|(k, _)| k.starts_with("rejected.") && k.ends_with(".unexplained"))
+        .map(|(_, v)| *v)
+        .sum();
+    run.require(
+        unexplained == 0,
+        &format!("{unexplained} presentations were refused although the model knows no reason (see observed_sets.unexplained_rejections)"),
+    );
     run.finish();
 }
